@@ -6,6 +6,7 @@ import (
 	"go/build/constraint"
 	"io/fs"
 	"os"
+	"path"
 	"strconv"
 	"strings"
 
@@ -240,6 +241,11 @@ func rawLoadPackage(sys fs.FS, pkg string) (*token, error) {
 			var m []string
 			for _, f := range matches {
 				if strings.HasSuffix(f, "_test.go") {
+					continue
+				}
+				// as for the go tool, a file whose name begins with "_" or "." is not part
+				// of the package (a parked source file, an editor's lock or backup file)
+				if base := path.Base(f); strings.HasPrefix(base, "_") || strings.HasPrefix(base, ".") {
 					continue
 				}
 				m = append(m, f)
